@@ -19,7 +19,7 @@ if [ -d "$SRC/tests" ]; then cp -r "$SRC/tests/." tests/; else for f in "$SRC"/*
 DEMOS=$(cd tests && ls seed_demo*.rs 2>/dev/null | sed 's/\.rs$//')
 echo "demos: $DEMOS"
 WITH=0
-for d in $DEMOS; do echo "== demo $d WITH change"; RUST_BACKTRACE=0 timeout 1200 cargo test --offline --test $d 2>&1 | tail -15; [ ${PIPESTATUS[0]} -ne 0 ] && WITH=1; done
+for d in $DEMOS; do echo "== demo $d WITH change"; RUST_BACKTRACE=0 timeout 1200 cargo test --offline ${DEMO_FLAGS:-} --test $d 2>&1 | tail -15; [ ${PIPESTATUS[0]} -ne 0 ] && WITH=1; done
 echo "DEMO_WITH_CHANGE_FAILS=$WITH"
 echo "== existing suite WITH change (demo moved aside)"
 mkdir -p /tmp/confirm/$ID.aside; for d in $DEMOS; do mv tests/$d.rs /tmp/confirm/$ID.aside/; done
@@ -30,7 +30,7 @@ if [ $SUITE_RC -eq 0 ] && ! grep -qE "^test result: FAILED" /tmp/confirm/$ID.sui
 for d in $DEMOS; do mv /tmp/confirm/$ID.aside/$d.rs tests/; done
 echo "== revert src"; git checkout -- src codegen 2>/dev/null; git checkout -- src
 WITHOUT=1
-for d in $DEMOS; do echo "== demo $d WITHOUT change"; RUST_BACKTRACE=0 timeout 1200 cargo test --offline --test $d 2>&1 | tail -8; [ ${PIPESTATUS[0]} -ne 0 ] && WITHOUT=0; done
+for d in $DEMOS; do echo "== demo $d WITHOUT change"; RUST_BACKTRACE=0 timeout 1200 cargo test --offline ${DEMO_FLAGS:-} --test $d 2>&1 | tail -8; [ ${PIPESTATUS[0]} -ne 0 ] && WITHOUT=0; done
 echo "DEMO_WITHOUT_CHANGE_PASSES=$WITHOUT"
 } > "$LOG" 2>&1
 mkdir -p /verif/seeded/$ID
